@@ -119,6 +119,9 @@ struct PoolCtx {
     _reactor: reactor::Reactor<Control, reactor::poller::popol::Poller>,
     _pool_thread: std::thread::JoinHandle<()>,
     dead: bool,
+    /// the `seeding` table was dropped after the workers opened the database: every policy
+    /// lookup fails (policy::store::Error)
+    db_broken: bool,
 }
 
 struct World {
@@ -131,6 +134,7 @@ struct World {
 }
 
 const N_SERVER: usize = 0;
+#[allow(dead_code)]
 const N_DELEGATE: usize = 1;
 const N_B: usize = 2;
 const N_C: usize = 3;
@@ -162,48 +166,45 @@ fn build_world() -> World {
 
     let did = |i: usize| Did::from(nodes[i].1);
     let mut repos = vec![];
-    // three explicit-policy slots x four visibilities, all with the single delegate D
+    // four visibilities, all with the single delegate D (the policy rows are set per case)
     let viss: [(&'static str, Visibility); 4] = [
         ("public", Visibility::Public),
         ("private[]", Visibility::private([])),
         ("private[B]", Visibility::private([did(N_B)])),
         ("private[B,C]", Visibility::private([did(N_B), did(N_C)])),
     ];
-    let mut k = 0;
-    for slot in 0..3 {
-        for (kind, vis) in viss.iter() {
-            let (working, _) = fixtures::repository(tmp.path().join(format!("work{k}")));
-            let (rid, _, _) = radicle::rad::init(
-                &working,
-                format!("proj{slot}x{k}").as_str().try_into().unwrap(),
-                "hw-c12",
-                radicle::git::RefString::try_from("master").unwrap(),
-                vis.clone(),
-                &delegate,
-                &storage,
-            )
-            .unwrap();
-            repos.push(RepoInfo { rid, kind });
-            k += 1;
-        }
+    for (k, (kind, vis)) in viss.iter().enumerate() {
+        let (working, _) = fixtures::repository(tmp.path().join(format!("work{k}")));
+        let (rid, _, _) = radicle::rad::init(
+            &working,
+            format!("proj{k}").as_str().try_into().unwrap(),
+            "hw-c12",
+            radicle::git::RefString::try_from("master").unwrap(),
+            vis.clone(),
+            &delegate,
+            &storage,
+        )
+        .unwrap();
+        repos.push(RepoInfo { rid, kind });
     }
     // a repository directory whose identity document cannot be loaded
-    for seed in [0x77u8, 0x78, 0x79] {
+    for seed in [0x77u8] {
         let rid = RepoId::from(radicle::git::Oid::try_from(&[seed; 20][..]).unwrap());
         radicle::git::raw::Repository::init_bare(radicle::storage::git::paths::repository(&storage, &rid)).unwrap();
         repos.push(RepoInfo { rid, kind: "broken" });
     }
     // repositories that are not in storage at all
-    for seed in [0x91u8, 0x92, 0x93] {
+    for seed in [0x91u8] {
         let rid = RepoId::from(radicle::git::Oid::try_from(&[seed; 20][..]).unwrap());
         repos.push(RepoInfo { rid, kind: "absent" });
     }
 
     let mut pools = vec![];
-    let defaults: [(&'static str, SeedingPolicy); 3] = [
+    let defaults: [(&'static str, SeedingPolicy); 4] = [
         ("default-allow-all", SeedingPolicy::Allow { scope: Scope::All }),
         ("default-allow-followed", SeedingPolicy::Allow { scope: Scope::Followed }),
         ("default-block", SeedingPolicy::Block),
+        ("policy-db-unreadable", SeedingPolicy::Allow { scope: Scope::All }),
     ];
     for (name, default) in defaults {
         let home = Home::new(tmp.path().join(name)).unwrap();
@@ -237,29 +238,29 @@ fn build_world() -> World {
         let pool_thread = std::thread::spawn(move || {
             let _ = pool.run();
         });
-        pools.push(PoolCtx { name, default, policies_db, tasks: ttx, results: rrx, _reactor: reactor, _pool_thread: pool_thread, dead: false });
+        pools.push(PoolCtx { name, default, policies_db, tasks: ttx, results: rrx, _reactor: reactor, _pool_thread: pool_thread, dead: false, db_broken: false });
     }
     let mut w = World { _tmp: tmp, storage, repos, nodes, pools };
     for p in 0..w.pools.len() {
         reset_policies(&mut w, p);
     }
+    {
+        let last = w.pools.last_mut().unwrap();
+        sqlite::open(&last.policies_db).unwrap().execute("DROP TABLE seeding").unwrap();
+        last.db_broken = true;
+    }
     w
 }
 
-/// Explicit rows: slot 0 (repos 0..4) allow, slot 1 (4..8) block, slot 2 (8..12) none;
-/// broken/absent: one of each.
-fn initial_explicit(i: usize) -> Option<Policy> {
-    match i {
-        0..=3 => Some(Policy::Allow),
-        4..=7 => Some(Policy::Block),
-        8..=11 => None,
-        12 | 15 => Some(Policy::Allow),
-        13 | 16 => Some(Policy::Block),
-        _ => None,
-    }
+/// No policy rows to start with; every case sets the rows it needs.
+fn initial_explicit(_i: usize) -> Option<Policy> {
+    None
 }
 
 fn set_policy(w: &World, pool: usize, rid: &RepoId, p: Option<Policy>) {
+    if w.pools[pool].db_broken {
+        return;
+    }
     let mut store = radicle::node::policy::store::Store::open(&w.pools[pool].policies_db).unwrap();
     // delete first: `seed` on an existing row does not change its policy column
     store.unseed(rid).unwrap();
@@ -311,6 +312,9 @@ fn read_repo(storage: &Storage, rid: &RepoId) -> RepoState {
 
 /// (explicit row, policy in force is Allow)
 fn read_policy(pool: &PoolCtx, rid: &RepoId) -> (Option<bool>, bool) {
+    if pool.db_broken {
+        return (None, false);
+    }
     let store = radicle::node::policy::store::Store::reader(&pool.policies_db).unwrap();
     let row = store.seed_policy(rid).unwrap().map(|p| matches!(p.policy, SeedingPolicy::Allow { .. }));
     let in_force = row.unwrap_or(matches!(pool.default, SeedingPolicy::Allow { .. }));
@@ -364,7 +368,14 @@ fn storage_preamble(w: &World) -> String {
 /// Gallina `state` of pool `p`: the policy rows are read back from the policy database.
 fn state_term(w: &World, p: usize) -> String {
     let pool = &w.pools[p];
-    let store = radicle::node::policy::store::Store::reader(&pool.policies_db).unwrap();
+    let unreadable = format!(
+        "{{| st_default := {}; st_policy_err := true; st_explicit := []; st_repos := hw_repos |}}",
+        if matches!(pool.default, SeedingPolicy::Allow { .. }) { "Allow" } else { "Block" }
+    );
+    let Ok(store) = radicle::node::policy::store::Store::reader(&pool.policies_db) else { return unreadable };
+    if store.seed_policy(&w.repos[0].rid).is_err() {
+        return unreadable;
+    }
     let mut explicit = vec![];
     for (i, r) in w.repos.iter().enumerate() {
         if let Some(pol) = store.seed_policy(&r.rid).unwrap() {
@@ -681,7 +692,7 @@ fn stream_lengths(run: &mut Run) {
     // or absent.  Oracle on all of them; Coq correspondence on the boundaries and a sample.
     let seed = run.args.seed;
     let good = b"git-upload-pack /z3gqcJUoA1n9HaHKufZs5FCSGazv5\0\0version=2\0";
-    let sample_every = if run.args.thorough { 16 } else { 97 };
+    let sample_every = if run.args.thorough { 61 } else { 211 };
     for l in 0..=0xffffu32 {
         let id = format!("1:{l}");
         if !run.args.wants(&id) {
@@ -730,7 +741,7 @@ fn stream_lengths(run: &mut Run) {
 }
 
 fn stream_headers(run: &mut Run, w: &World) {
-    let n = run.args.count(1500, 15000);
+    let n = run.args.count(1200, 5000);
     let seed = run.args.seed;
     for i in 0..n {
         let id = format!("2:{i}");
@@ -773,6 +784,41 @@ struct Served {
     detail: String,
 }
 
+/// `(oid, refname)` advertised in an ls-refs response found in the stream output.
+fn advertised_refs(data: &[u8]) -> Vec<(String, String)> {
+    let mut i = 0;
+    let mut out = vec![];
+    while i + 4 <= data.len() {
+        let Ok(l) = std::str::from_utf8(&data[i..i + 4]) else { break };
+        let Ok(l) = usize::from_str_radix(l, 16) else { break };
+        if l < 4 {
+            i += 4;
+            continue;
+        }
+        if i + l > data.len() {
+            break;
+        }
+        let line = String::from_utf8_lossy(&data[i + 4..i + l]).to_string();
+        let line = line.trim_end();
+        if line.len() > 41 && line.as_bytes()[40] == b' ' && line[..40].bytes().all(|b| b.is_ascii_hexdigit()) {
+            let name = line[41..].split(' ').next().unwrap_or("").to_string();
+            out.push((line[..40].to_string(), name));
+        }
+        i += l;
+    }
+    out
+}
+
+/// The advertised references that do NOT resolve to the advertised object in the storage
+/// directory of `rid` (read with libgit2, independently of the worker).
+fn foreign_refs(storage: &Storage, rid: &RepoId, adv: &[(String, String)]) -> Vec<(String, String)> {
+    let Ok(repo) = radicle::git::raw::Repository::open_bare(radicle::storage::git::paths::repository(storage, rid)) else { return adv.to_vec() };
+    adv.iter()
+        .filter(|(oid, name)| repo.refname_to_id(name).map(|o| o.to_string() != *oid).unwrap_or(true))
+        .cloned()
+        .collect()
+}
+
 fn flush_count(data: &[u8]) -> usize {
     // count pkt-line flush packets in a (prefix of a) pkt-line stream
     let mut i = 0;
@@ -805,6 +851,12 @@ fn request(pool: &mut PoolCtx, remote: NodeId, stream: &[u8]) -> Served {
         return Served { rid: None, code: "RPanic", data, detail: "worker thread is gone".into() };
     }
     let _ = ours.send(ChannelEvent::Data(stream.to_vec()));
+    let complete = stream.len() >= 4
+        && std::str::from_utf8(&stream[..4])
+            .ok()
+            .and_then(|l| usize::from_str_radix(l, 16).ok())
+            .map(|l| l < 4 || l > 1024 || stream.len() >= l)
+            .unwrap_or(true);
     let t0 = Instant::now();
     let mut eof_sent = false;
     let mut result = None;
@@ -825,19 +877,26 @@ fn request(pool: &mut PoolCtx, remote: NodeId, stream: &[u8]) -> Served {
             break;
         }
         let el = t0.elapsed();
-        let want_eof = if data.is_empty() { el > Duration::from_millis(400) } else { flush_count(&data) >= 2 || el > Duration::from_millis(2500) };
+        // A complete pkt-line never makes the worker wait for more header bytes: then either the
+        // result arrives at once (refused) or git is starting (be patient, the machine may be
+        // loaded).  An incomplete one needs the end-of-stream now.
+        let want_eof = if data.is_empty() {
+            !complete || el > Duration::from_secs(8)
+        } else {
+            flush_count(&data) >= 2 || el > Duration::from_secs(10)
+        };
         if want_eof && !eof_sent {
             let _ = ours.send(ChannelEvent::Eof);
             eof_sent = true;
         }
-        if el > Duration::from_secs(20) {
+        if el > Duration::from_secs(40) {
             break;
         }
     }
     match result {
         None => {
             pool.dead = true;
-            Served { rid: None, code: "RPanic", data, detail: "no TaskResult within 20 s (worker thread panicked or hung)".into() }
+            Served { rid: None, code: "RPanic", data, detail: "no TaskResult within 40 s (worker thread panicked or hung)".into() }
         }
         Some(TaskResult { result: FetchResult::Responder { rid, result }, .. }) => {
             let (code, detail) = match &result {
@@ -855,10 +914,19 @@ fn request(pool: &mut PoolCtx, remote: NodeId, stream: &[u8]) -> Served {
 
 /// One request against pool `p`: correspondence case + direct oracle.
 fn pool_case(run: &mut Run, w: &mut World, id: &str, p: usize, node: usize, kind: &str, stream: &[u8]) {
+    pool_case_locked(run, w, id, p, node, kind, stream, None)
+}
+
+/// `lock`: a connection holding the policy database exclusively while the request is handled
+/// (released right after the worker answered, before the oracle reads the database).
+fn pool_case_locked(run: &mut Run, w: &mut World, id: &str, p: usize, node: usize, kind: &str, stream: &[u8], lock: Option<sqlite::Connection>) {
     run.eval();
     let st = state_term(w, p);
     let remote = w.nodes[node].1;
     let s = request(&mut w.pools[p], remote, stream);
+    if let Some(c) = lock {
+        c.execute("ROLLBACK").unwrap();
+    }
     let input = json!({
         "pool": w.pools[p].name, "requester": w.nodes[node].0, "header_kind": kind,
         "stream": String::from_utf8_lossy(stream), "result": s.code, "detail": s.detail,
@@ -892,6 +960,15 @@ fn pool_case(run: &mut Run, w: &mut World, id: &str, p: usize, node: usize, kind
                             if flush_count(&s.data) >= 2 {
                                 run.tally("served:ls-refs-complete");
                             }
+                            // the data is that of the repository that was asked for and checked
+                            let adv = advertised_refs(&s.data);
+                            if !adv.is_empty() {
+                                run.tally("served:refs-advertised");
+                                let foreign = foreign_refs(&w.storage, &rid, &adv);
+                                if !foreign.is_empty() {
+                                    run.fail(id, "served-other-repository-data", format!("the stream carries references that are not in {}: {:?}", rid, &foreign[..foreign.len().min(3)]), input.clone());
+                                }
+                            }
                         }
                     }
                     _ => run.fail(id, "served-no-repository", format!("{what}: {} which has no loadable identity document", rid), input.clone()),
@@ -917,25 +994,33 @@ fn pool_case(run: &mut Run, w: &mut World, id: &str, p: usize, node: usize, kind
 
 const LS_REFS: &[u8] = b"0014command=ls-refs\n0001000csymrefs\n0000";
 
+const ROWS: [(&str, Option<Policy>); 3] = [("row-allow", Some(Policy::Allow)), ("row-block", Some(Policy::Block)), ("row-none", None)];
+
 fn stream_enumerate(run: &mut Run, w: &mut World) {
-    // complete: default policy x explicit row x visibility x requester, canonical header
+    // complete: default policy x explicit row x repository (4 visibilities, broken, absent) x
+    // requester, canonical header
     let seed = run.args.seed;
     let mut k = 0u64;
     for p in 0..w.pools.len() {
-        for i in 0..w.repos.len() {
-            for node in 0..w.nodes.len() {
-                let id = format!("3:{k}");
-                k += 1;
-                if !run.args.wants(&id) {
-                    continue;
+        let rows: &[(&str, Option<Policy>)] = if w.pools[p].db_broken { &ROWS[2..] } else { &ROWS[..] };
+        for (row_name, row) in rows {
+            for i in 0..w.repos.len() {
+                let rid = w.repos[i].rid;
+                for node in 0..w.nodes.len() {
+                    let id = format!("3:{k}");
+                    k += 1;
+                    if !run.args.wants(&id) {
+                        continue;
+                    }
+                    set_policy(w, p, &rid, *row);
+                    let mut r = Rng::for_case(seed, 3, k);
+                    let oid = rid_bytes(&rid);
+                    let (kind, s) = header(&mut r, &oid, true, LS_REFS);
+                    run.tally(&format!("enum:{}:{}:{}", if w.pools[p].db_broken { "db-unreadable" } else if matches!(w.pools[p].default, SeedingPolicy::Block) { "dflt-block" } else { "dflt-allow" }, row_name, w.repos[i].kind));
+                    run.tally(&format!("requester:{}", w.nodes[node].0));
+                    pool_case(run, w, &id, p, node, &kind, &s);
                 }
-                let mut r = Rng::for_case(seed, 3, k);
-                let oid = rid_bytes(&w.repos[i].rid);
-                let (kind, s) = header(&mut r, &oid, true, LS_REFS);
-                run.tally(&format!("enum:{}:{}:{}", if matches!(w.pools[p].default, SeedingPolicy::Block) { "dflt-block" } else { "dflt-allow" },
-                    match initial_explicit(i) { Some(Policy::Allow) => "row-allow", Some(Policy::Block) => "row-block", None => "row-none" }, w.repos[i].kind));
-                run.tally(&format!("requester:{}", w.nodes[node].0));
-                pool_case(run, w, &id, p, node, &kind, &s);
+                set_policy(w, p, &rid, None);
             }
         }
     }
@@ -943,9 +1028,9 @@ fn stream_enumerate(run: &mut Run, w: &mut World) {
 }
 
 fn stream_mutate(run: &mut Run, w: &mut World) {
-    // random sessions: the policy row of the requested repository is rewritten before the
-    // request; every header shape; unknown repositories too
-    let n = run.args.count(160, 1600);
+    // random sessions: the policy rows are rewritten before the request (the requested
+    // repository's row and a second, unrelated row); every header shape; unknown repositories
+    let n = run.args.count(100, 500);
     let seed = run.args.seed;
     for i in 0..n {
         let id = format!("4:{i}");
@@ -953,18 +1038,19 @@ fn stream_mutate(run: &mut Run, w: &mut World) {
             continue;
         }
         let mut r = Rng::for_case(seed, 4, i);
-        let p = r.below(w.pools.len() as u64) as usize;
+        let p = r.below(w.pools.len() as u64 - 1) as usize;
         let node = r.below(w.nodes.len() as u64) as usize;
         let ri = r.below(w.repos.len() as u64) as usize;
         let rid = w.repos[ri].rid;
-        let newp = match r.below(4) {
-            0 => Some(Policy::Allow),
-            1 => Some(Policy::Block),
-            2 => None,
-            _ => initial_explicit(ri),
-        };
+        let (row_name, newp) = *r.pick(&ROWS);
+        let other = w.repos[r.below(w.repos.len() as u64) as usize].rid;
+        let (_, otherp) = *r.pick(&ROWS);
+        reset_policies(w, p);
+        if other != rid {
+            set_policy(w, p, &other, otherp);
+        }
         set_policy(w, p, &rid, newp);
-        run.tally(match newp { Some(Policy::Allow) => "mut:row-allow", Some(Policy::Block) => "mut:row-block", None => "mut:row-none" });
+        run.tally(&format!("mut:{row_name}"));
         let oid = if r.chance(1, 12) { r.bytes(20) } else { rid_bytes(&rid) };
         let ok = r.chance(1, 3);
         let (kind, s) = header(&mut r, &oid, ok, LS_REFS);
@@ -972,8 +1058,29 @@ fn stream_mutate(run: &mut Run, w: &mut World) {
             run.tally(&format!("mhdr:{k}"));
         }
         pool_case(run, w, &id, p, node, &kind, &s);
-        set_policy(w, p, &rid, initial_explicit(ri));
+        reset_policies(w, p);
     }
+}
+
+/// The policy database cannot be read while the request is handled (another connection holds
+/// it exclusively for longer than the reader's busy timeout): the repository's row says Block,
+/// the default is Allow, the repository is public.
+fn stream_db_locked(run: &mut Run, w: &mut World) {
+    let id = "7:0";
+    if !run.args.wants(id) {
+        return;
+    }
+    let (p, ri, node) = (0usize, 0usize, 4usize);
+    let rid = w.repos[ri].rid;
+    set_policy(w, p, &rid, Some(Policy::Block));
+    let oid = rid_bytes(&rid);
+    let mut r = Rng::for_case(run.args.seed, 7, 0);
+    let (kind, s) = header(&mut r, &oid, true, LS_REFS);
+    let lock = sqlite::open(&w.pools[p].policies_db).unwrap();
+    lock.execute("BEGIN EXCLUSIVE").unwrap();
+    run.tally("db-locked-during-request");
+    pool_case_locked(run, w, id, p, node, &kind, &s, Some(lock));
+    set_policy(w, p, &rid, None);
 }
 
 /// Parseable (and a few unparseable) header shapes, deterministic: (name, body)
@@ -1013,18 +1120,18 @@ fn shapes(oid: &[u8]) -> Vec<(&'static str, Vec<u8>)> {
 fn stream_shapes(run: &mut Run, w: &mut World) {
     // every header shape against triples that are allowed (so that what follows the decision —
     // the protocol-version gate, the upload itself — is reached) and a few that are refused
-    let triples: [(usize, usize, usize); 7] = [
-        (0, 0, 4),  // default allow, row allow, public, stranger        -> allowed
-        (2, 2, 2),  // default block, row allow, private[B], B           -> allowed
-        (1, 9, 1),  // default allow(followed), no row, private[], delegate -> allowed
-        (0, 11, 3), // default allow, no row, private[B,C], C            -> allowed
-        (0, 10, 3), // default allow, no row, private[B], C              -> not visible
-        (2, 8, 4),  // default block, no row, public                     -> blocked
-        (0, 12, 1), // broken repository
+    let triples: [(usize, usize, usize, Option<Policy>); 5] = [
+        (0, 0, 4, Some(Policy::Allow)), // default allow, row allow, public, stranger           -> allowed
+        (2, 2, 2, Some(Policy::Allow)), // default block, row allow, private[B], B              -> allowed
+        (1, 1, 1, None),                // default allow(followed), no row, private[], delegate -> allowed
+        (0, 2, 3, None),                // default allow, no row, private[B], C                 -> not visible
+        (0, 4, 1, Some(Policy::Allow)), // broken repository
     ];
     let mut k = 0;
-    for (p, ri, node) in triples {
-        let oid = rid_bytes(&w.repos[ri].rid);
+    for (p, ri, node, row) in triples {
+        let rid = w.repos[ri].rid;
+        set_policy(w, p, &rid, row);
+        let oid = rid_bytes(&rid);
         for (name, body) in shapes(&oid) {
             let id = format!("5:{k}");
             k += 1;
@@ -1042,6 +1149,76 @@ fn stream_shapes(run: &mut Run, w: &mut World) {
                 run.nontrivial(format!("shape-served:{name}"));
             }
         }
+        set_policy(w, p, &rid, None);
+    }
+}
+
+/// Thorough tier: two/three REAL nodes (runtime, wire protocol, noise sessions): fetch attempts
+/// against a node that holds a public, a private[] and a private[carol] repository.
+fn stream_e2e(run: &mut Run) {
+    use radicle::node::{Alias, Handle as _, DEFAULT_TIMEOUT};
+    use radicle_node::test::environment::Node;
+    if !run.args.wants("6:0") {
+        return;
+    }
+    let r = catch(|| {
+        let tmp = tempfile::tempdir().unwrap();
+        let cfg = |n: &'static str| radicle::node::config::Config::test(Alias::new(n));
+        let mut alice = Node::init(tmp.path(), cfg("alice"));
+        let bob = Node::init(tmp.path(), cfg("bob"));
+        let carol = Node::init(tmp.path(), cfg("carol"));
+        radicle::storage::git::transport::local::register(alice.storage.clone());
+        let mut rids = vec![];
+        let viss = [("public", Visibility::Public), ("private[]", Visibility::private([])), ("private[carol]", Visibility::private([Did::from(carol.id)]))];
+        for (i, (kind, vis)) in viss.iter().enumerate() {
+            let (working, _) = fixtures::repository(tmp.path().join(format!("w{i}")));
+            let (rid, _, _) = radicle::rad::init(&working, format!("e2e{i}").as_str().try_into().unwrap(), "hw-c12", radicle::git::RefString::try_from("master").unwrap(), vis.clone(), &alice.signer, &alice.storage).unwrap();
+            alice.policies.seed(&rid, Scope::All).unwrap();
+            rids.push((*kind, rid, vis.clone()));
+        }
+        let alice = alice.spawn();
+        let mut bob = bob.spawn();
+        let mut carol = carol.spawn();
+        bob.connect(&alice);
+        carol.connect(&alice);
+        let mut out = vec![];
+        for (who, node) in [("bob", &mut bob), ("carol", &mut carol)] {
+            for (kind, rid, vis) in &rids {
+                node.handle.seed(*rid, Scope::All).unwrap();
+                let res = node.handle.fetch(*rid, alice.id, DEFAULT_TIMEOUT).unwrap();
+                let has = node.storage.contains(rid).unwrap_or(false);
+                let did = Did::from(node.id);
+                let visible = match vis {
+                    Visibility::Public => true,
+                    Visibility::Private { allow } => allow.contains(&did) || did == Did::from(alice.id),
+                };
+                out.push((who, *kind, *rid, res.is_success(), has, visible));
+            }
+        }
+        out
+    });
+    match r {
+        Err(e) => {
+            run.tally("e2e:infrastructure-error");
+            run.note(format!("e2e scenario could not be run: {e}"));
+        }
+        Ok(rows) => {
+            for (who, kind, rid, ok, has, visible) in rows {
+                run.eval();
+                run.tally(&format!("e2e:{}:{}:{}", who, kind, if ok { "fetched" } else { "failed" }));
+                let input = json!({"requester": who, "repository": kind, "rid": rid.to_string(), "fetch_success": ok, "requester_has_repository": has});
+                if (ok || has) && !visible {
+                    run.fail("6:0", "e2e-fetched-not-visible", format!("{who} fetched (success={ok}, in storage={has}) the {kind} repository {rid} it is not allowed to see"), input.clone());
+                }
+                if visible && !ok {
+                    run.note(format!("e2e: {who} was allowed to fetch {kind} {rid} but the fetch failed"));
+                }
+                if ok {
+                    run.nontrivial(format!("e2e:{who}:{kind}"));
+                }
+                run.sample(json!({"case": "6:0", "input": input}));
+            }
+        }
     }
 }
 
@@ -1053,7 +1230,7 @@ fn main() {
         "distinct (pool default, repository, requester) triples served, plus distinct (pool, repository, requester, error) refusals, plus distinct accepted header shapes",
     );
     run.shard_size(250);
-    let w_needed = run.args.only.as_deref().map(|o| !o.starts_with("1:")).unwrap_or(true);
+    let w_needed = run.args.only.as_deref().map(|o| !o.starts_with("1:") && !o.starts_with("6:")).unwrap_or(true);
     let t0 = Instant::now();
     stream_lengths(&mut run);
     let lap = |what: &str| if std::env::var("HW_TIMING").is_ok() { eprintln!("{what}: {:?}", t0.elapsed()) };
@@ -1070,6 +1247,12 @@ fn main() {
         lap("mutate");
         stream_shapes(&mut run, &mut w);
         lap("shapes");
+        stream_db_locked(&mut run, &mut w);
+        lap("db-locked");
+        if run.args.thorough {
+            stream_e2e(&mut run);
+            lap("e2e");
+        }
         run.note(format!(
             "world: {} repositories ({}), requesters {:?}, pools {:?}",
             w.repos.len(),
@@ -1085,5 +1268,9 @@ fn main() {
         // worker threads block on their task channel; do not wait for them
         std::process::exit(0);
     }
+    if run.args.thorough {
+        stream_e2e(&mut run);
+    }
     run.finish();
+    std::process::exit(0);
 }
